@@ -741,6 +741,39 @@ func vjDecode(d []byte, vs, ve int, v any) error {
 			}
 		})
 		return ferr
+	case *jsonRangeBoundary:
+		if vjIsNull(d, vs, ve) {
+			return nil
+		}
+		if d[vs] != '{' {
+			return errVJType
+		}
+		var ferr error
+		vjMembers(d, vs, func(key string, s, e int) {
+			switch vjField(key, vjBoundaryFields) {
+			case 0:
+				raw := make([]byte, e-s)
+				copy(raw, d[s:e])
+				t.Min = raw
+			case 1:
+				raw := make([]byte, e-s)
+				copy(raw, d[s:e])
+				t.Max = raw
+			case 2:
+				switch {
+				case vjIsNull(d, s, e):
+				case d[s] == 't':
+					t.Inclusive = true
+				case d[s] == 'f':
+					t.Inclusive = false
+				default:
+					if ferr == nil {
+						ferr = errVJType
+					}
+				}
+			}
+		})
+		return ferr
 	case *jsonExpression:
 		if vjIsNull(d, vs, ve) {
 			return nil
